@@ -245,6 +245,11 @@ func (x *Exec) havocLoop(st *State, fn *ssa.Function, l *Loop, lc *LoopContract)
 			case *ssa.MakeInterface:
 				v = u.X
 				continue
+			case *ssa.IndexAddr:
+				if _, ok := types.Unalias(u.X.Type()).Underlying().(*types.Pointer); ok {
+					v = u.X // element of an array object (e.g. a varargs or slice-literal backing array)
+					continue
+				}
 			case *ssa.Alloc:
 				if u.Heap {
 					return u
@@ -255,6 +260,7 @@ func (x *Exec) havocLoop(st *State, fn *ssa.Function, l *Loop, lc *LoopContract)
 	}
 	allHeap := false
 	hasGo, hasSend, hasMayPanic := false, false, false
+	unknownCall := false // a call through a function value: may reach any logged callee
 	logged := map[string]bool{}
 	seenFn := map[*ssa.Function]bool{}
 	var scanBlocks func(f *ssa.Function, blocks []*ssa.BasicBlock, inBody func(*ssa.BasicBlock) bool)
@@ -396,6 +402,9 @@ func (x *Exec) havocLoop(st *State, fn *ssa.Function, l *Loop, lc *LoopContract)
 							}
 						}
 						continue
+					}
+					if cc.StaticCallee() == nil {
+						unknownCall = true
 					}
 					if callee := cc.StaticCallee(); callee != nil {
 						if callee.Parent() != nil {
@@ -551,8 +560,25 @@ func (x *Exec) havocLoop(st *State, fn *ssa.Function, l *Loop, lc *LoopContract)
 	if hasMayPanic {
 		st.Ghost["componentPanicked"] = x.D.Fresh("panicked", SBool)
 	}
-	// call records of earlier iterations are no longer addressable
-	st.CallLog = nil
+	// call records of callees the loop may reach are no longer addressable (earlier iterations); the others stay
+	inLoop := func(name string) bool {
+		if unknownCall || hasGo {
+			return true
+		}
+		for k := range logged {
+			if k == name || strings.HasSuffix(k, "."+name) || strings.HasSuffix(name, "."+k) {
+				return true
+			}
+		}
+		return false
+	}
+	var kept []CallRec
+	for _, r := range st.CallLog {
+		if !inLoop(r.Name) {
+			kept = append(kept, r)
+		}
+	}
+	st.CallLog = kept
 	// call counters
 	for k := range logged {
 		if _, ok := st.Calls[k]; !ok {
@@ -560,6 +586,9 @@ func (x *Exec) havocLoop(st *State, fn *ssa.Function, l *Loop, lc *LoopContract)
 		}
 	}
 	for _, k := range sortedKeys(st.Calls) {
+		if !inLoop(k) {
+			continue
+		}
 		c := x.D.Fresh("nc."+k, SInt)
 		st.Assume(fmt.Sprintf("(>= %s %s)", c, st.Calls[k]))
 		st.Calls[k] = c
